@@ -170,8 +170,8 @@ def coq_case(doc, ns, u, text2, r2):
 def run(ctx):
     build_ok, obl, regen = core.std_setup(ctx)
     quick = ctx.quick()
-    n = 210 if quick else 4000
-    ncoq = 130 if quick else 1500
+    n = 180 if quick else 4000
+    ncoq = 110 if quick else 1500
     docs = corpus_docs() + make_docs(ctx, n)
     ctx.log('loading %d documents three times each (1.4.1 / 1.5 / random namespace URI)' % len(docs))
     failures, per = evaluate(ctx, docs)
